@@ -4,6 +4,7 @@ client-boundary emit log."""
 
 import os
 import shutil
+import subprocess
 
 import core
 import obs
@@ -266,7 +267,11 @@ def run_case(i, script=None, info=None, wd=None):
         env["OVNI_TMPDIR"] = os.path.join(wd, "tmp")
     if info.get("nostdin"):
         env["RTDRV_CLOSE_STDIN"] = "1"
-    res = rt.run_script(drv, info["script"], wd, env=env, timeout=120)
+    if info.get("env"):
+        env.update(info["env"])
+    res = rt.run_script(drv, info["script"], wd, env=env, timeout=120, wrapper=info.get("wrapper"))
+    if info.get("after_run"):
+        info["after_run"]()
     out = {"i": i, "kind": info["kind"], "viol": None, "inconclusive": None,
            "events": 0, "markers": 0, "bytes": 0, "feat": set(), "shortwrites": 0, "aborted_on_fault": 0}
     try:
@@ -427,15 +432,40 @@ def run_rerun(k):
     shutil.rmtree(wd, ignore_errors=True)
     os.makedirs(wd)
     info = None
+    # two runs in eight: the trace directory and OVNI_TMPDIR are two freshly made file systems (two tmpfs in
+    # a private mount namespace).  The first job writes directly, the second through OVNI_TMPDIR: both file
+    # systems hand out the same inode numbers in the same order, so the temporary files of the second job
+    # and the files the first one left carry equal inode numbers on different devices
+    twofs = (k % 8) in (5, 6)
+    holder = None
+    wrapper = None
     try:
+        if twofs:
+            for d in ("A", "B"):
+                os.makedirs(os.path.join(wd, d))
+            holder = subprocess.Popen(["unshare", "-m", "sh", "-c",
+                                       "mount -t tmpfs none %s/A && mount -t tmpfs none %s/B && echo ready && exec sleep 600"
+                                       % (wd, wd)], stdout=subprocess.PIPE, stderr=subprocess.DEVNULL)
+            if holder.stdout.readline().strip() != b"ready":
+                holder.kill(); holder.wait(); holder = None
+                return {"i": k, "kind": "rerun", "viol": None, "inconclusive": "cannot mount tmpfs in a private mount namespace",
+                        "events": 0, "markers": 0, "bytes": 0, "feat": set(), "shortwrites": 0, "aborted_on_fault": 0}
+            wrapper = ["nsenter", "-t", str(holder.pid), "-m"]
         for run, nops in enumerate(sizes):
             ops, sh = gen_soup(rng, nops, big=0)
             script = make_script([(1000 + k % 50, ops)])
-            info = {"case": k, "kind": "rerun", "script": script, "tmpdir": (k // 4) % 2 == 1, "autoflush_expected": None,
-                    "nostdin": False}
+            info = {"case": k, "kind": "rerun", "script": script, "tmpdir": (k // 4) % 2 == 1 and not twofs,
+                    "autoflush_expected": None, "nostdin": False}
+            if twofs:
+                info["wrapper"] = wrapper
+                info["env"] = {"OVNI_TRACEDIR": os.path.join(wd, "B", "ovni"), "OVNI_TMPDIR": os.path.join(wd, "A", "tmp")}
+                info["after_run"] = lambda: subprocess.call(wrapper + ["cp", "-r", os.path.join(wd, "B", "ovni"),
+                                                                      os.path.join(wd, "trace")])
             if run == 0:
                 env = {"OVNI_TMPDIR": os.path.join(wd, "tmp")} if info["tmpdir"] else {}
-                r = rt.run_script(drv, script, wd, env=env, timeout=120)
+                if twofs:
+                    env = {"OVNI_TRACEDIR": os.path.join(wd, "B", "ovni")}
+                r = rt.run_script(drv, script, wd, env=env, timeout=120, wrapper=wrapper)
                 if r.rc != 0 or "RTDRV-DONE" not in r.out:
                     return {"i": k, "kind": "rerun", "viol": ("driver-died:rerun-first", "first run died", r.brief()),
                             "inconclusive": None, "events": 0, "markers": 0, "bytes": 0, "feat": set(), "shortwrites": 0,
@@ -444,8 +474,12 @@ def run_rerun(k):
         out = run_case(400000 + k, info=info, wd=wd)
         out["i"] = k
         out["rerun_script"] = info["script"] if out["viol"] else None
+        if twofs:
+            out["feat"] = set(out["feat"]) | {"two-file-systems-equal-inodes"}
         return out
     finally:
+        if holder is not None:
+            holder.kill(); holder.wait()
         shutil.rmtree(wd, ignore_errors=True)
 
 
